@@ -521,16 +521,17 @@ impl DrawExecutor {
 
                 // Convenience variables for endpoints
 
-                let y1 = points[i * 2 + 1]; // Get Y-coord of 1st endpoint.
-                let y2 = points[next_point * 2 + 1]; // Get Y-coord of 2nd endpoint.
+                // (i64: the coordinates span the whole i32 range, their differences do not)
+                let y1 = i64::from(points[i * 2 + 1]); // Get Y-coord of 1st endpoint.
+                let y2 = i64::from(points[next_point * 2 + 1]); // Get Y-coord of 2nd endpoint.
 
                 // Get Y delta of current vector/segment/edge
                 let dy = y2 - y1;
 
                 // If the current vector is horizontal (0), ignore it.
                 // Calculate deltas of each endpoint with current scan line.
-                let dy1 = y - y1;
-                let dy2 = y - y2;
+                let dy1 = i64::from(y) - y1;
+                let dy2 = i64::from(y) - y2;
 
                 // Determine whether the current vector intersects with
                 // the scan line by comparing the Y-deltas we calculated
@@ -540,8 +541,8 @@ impl DrawExecutor {
                 // not intersect and can be ignored.  The origin for this
                 // test is found in Newman and Sproull.
                 if (dy1 ^ dy2) < 0 {
-                    let x1 = points[i * 2]; // Get X-coord of 1st endpoint.
-                    let x2 = points[next_point * 2]; // Get X-coord of 2nd endpoint.
+                    let x1 = i64::from(points[i * 2]); // Get X-coord of 1st endpoint.
+                    let x2 = i64::from(points[next_point * 2]); // Get X-coord of 2nd endpoint.
 
                     // Calculate X delta of current vector
                     let dx = (x2 - x1) << 1; // Left shift so we can round by adding 1 below
@@ -554,11 +555,13 @@ impl DrawExecutor {
                     intersections += 1;
 
                     // Add X value for this vector to edge buffer
-                    if dx < 0 {
-                        edge_buffer.push(((dy2 * dx / dy + 1) >> 1) + x2);
+                    // (the product needs more than 64 bits for coordinates near the i32 limits; the result lies between x1 and x2)
+                    let x = if dx < 0 {
+                        ((i128::from(dy2) * i128::from(dx) / i128::from(dy) + 1) >> 1) + i128::from(x2)
                     } else {
-                        edge_buffer.push(((dy1 * dx / dy + 1) >> 1) + x1);
-                    }
+                        ((i128::from(dy1) * i128::from(dx) / i128::from(dy) + 1) >> 1) + i128::from(x1)
+                    };
+                    edge_buffer.push(x as i32);
                 }
             }
 
